@@ -145,7 +145,7 @@ def check_expected(case, viol, res, shape, specs, fmt, thr, exact):
 CONTAINERS = ['Sequential', 'OneOf', 'SomeOf', 'Compose']
 
 
-def gen_case(rng, force_choice=None, force_each=None, force_wrap=None):
+def gen_case(rng, force_choice=None, force_each=None, force_wrap=None, empty=False):
     dims = rng.sample([4, 8, 16, 2], 3) if rng.random() < 0.6 else rng.sample([4, 6, 8, 10, 12, 16], 3)
     if force_choice is not None:
         dims = rng.sample([6, 10, 12, 16], 3)      # pairwise different extents: an axis confusion shows
@@ -171,6 +171,10 @@ def gen_case(rng, force_choice=None, force_each=None, force_wrap=None):
     if rng.random() < 0.5:
         specs.append(rng.choice([S.L('HorizontalFlip'), S.L('Transpose'), S.L('SliceFlip'),
                                  S.L('PadIfNeeded', min_height=H + 2, min_width=W + 1, min_depth=D + 3)]))
+    if empty:
+        # a pipeline in which nothing runs: the thresholds are still applied (once, against the input frame)
+        win = {'x_min': 0, 'y_min': 0, 'z_min': 0, 'x_max': W, 'y_max': H, 'z_max': D}
+        specs = []
     if force_wrap is not None:
         # the crop inside a container, then a transform that brings the cut-off part of the frame back
         specs = [specs[0], S.L('PadIfNeeded', min_height=H + 2, min_width=W + 1, min_depth=D + 3)]
@@ -267,9 +271,14 @@ def run(seed=0, tier='quick', hints=None, broken=False):
     # every kind of well-conditioned size threshold under both filtering schedules, a few times each
     forced = [(c, e) for c in ('mid-width', 'mid-height', 'mid-depth', 'all-three') for e in (True, False)] * (6 if tier == 'quick' else 30)
     wrapped = [(k, ch) for k in CONTAINERS for ch in ('none', 'vvis', 'avis')] * (2 if tier == 'quick' else 20)
+    idle = [(ch, e) for ch in ('above', 'mid-width', 'mid-height', 'mid-depth', 'all-three', 'volume') for e in (True, False)] * (1 if tier == 'quick' else 10)
+    for ch, e in idle:
+        case = gen_case(rng, force_choice=ch, force_each=e, empty=True)
+        check(case, viol)
+        seen.add(('idle', ch, e))
     for i in range(n + len(forced) + len(wrapped)):
         if i < n:
-            case = gen_case(rng)
+            case = gen_case(rng, empty=rng.random() < 0.05)
         elif i < n + len(forced):
             case = gen_forced(rng, *forced[i - n])
         else:
